@@ -352,6 +352,7 @@ PREFIX_CHARS = '@-+'
 
 
 def classify_make_failure(channel, args):
+    """input predicate of the two command-word findings: args[0] is the word written at the start of a recipe line"""
     cls = []
     w0 = args[0] if args else ''
     import re
@@ -360,6 +361,23 @@ def classify_make_failure(channel, args):
             cls.append('cmdword-assignment-like')
         if w0[:1] in PREFIX_CHARS and not re.search(r"[^\w@%+=:,./-]", w0):
             cls.append('cmdword-recipe-prefix')
+    return tuple(cls)
+
+
+def classify_cmdword(w, first_arg, got, out):
+    """Finding classes of a command word that is not started under its name: the shape of the word (classify_make_failure)
+    AND the failure the finding describes - no process is recorded at all, and
+      cmdword-assignment-like: sh took the word as an assignment and tried to run the first ARGUMENT as the program;
+      cmdword-recipe-prefix:   Make consumed the first character and tried to run the rest of the word.
+    A program started under the right name with wrong arguments or environment is a different violation."""
+    if got not in (None, []):
+        return ()
+    cls = []
+    for c in classify_make_failure('recipe', [w]):
+        if c == 'cmdword-assignment-like' and '/bin/sh: 1: %s: not found' % first_arg in out:
+            cls.append(c)
+        if c == 'cmdword-recipe-prefix' and 'make: %s: No such file or directory' % w[1:] in out:
+            cls.append(c)
     return tuple(cls)
 
 
@@ -390,7 +408,7 @@ def stage_oracle_make(rep, rng, n):
             if got != args:
                 if rep.fail('Make backend, %s channel: arguments %r are delivered as %r' % (channel, args, got),
                             {'channel': channel, 'args': args, 'delivered': got, 'makefile': o.getvalue(), 'make_output': out[-400:]},
-                            classes=classify_make_failure(channel, args)):
+                            classes=()):      # the command word is the recorder here: no finding is about argument words
                     bad += 1
     rep.stage('oracle:makefile->make->sh', cases=len(cases) * 2, failures=bad)
     return bad
@@ -426,7 +444,7 @@ def stage_oracle_cmdword(rep):
                 if got != want:
                     if rep.fail('Make backend: command word %r with args %r env %r is run as %r' % (w, ['x y'], envd, got),
                                 {'command_word': w, 'env': envd, 'delivered': got, 'makefile': o.getvalue(), 'out': out[-300:]},
-                                classes=classify_make_failure('recipe', [w])):
+                                classes=classify_cmdword(w, 'x y', got, out)):
                         bad += 1
     finally:
         shutil.rmtree(d, ignore_errors=True)
